@@ -6,12 +6,16 @@ import plan as planmod
 import seqengine as se
 import props_cl
 import props_dq
+import props_conc
+import concengine
 
 SEQ_PLANS = {}
 SEQ_PLANS.update(props_cl.PLANS)
 SEQ_PLANS.update(props_dq.PLANS)
 
 CUSTOM = {}   # pid -> function(tier, seed) -> exit code   (engines that are not plan-shaped)
+for _pid, _fn in props_conc.PLANS.items():
+    CUSTOM[_pid] = (lambda fn: (lambda tier, seed: concengine.run_conc(fn.__name__.upper(), tier, seed, fn(tier, seed))))(_fn)
 
 
 def run(pid, tier, seed):
@@ -50,6 +54,7 @@ def setup():
             seen.add(key)
             jobs.append(dict(source=w["source"], defines=w.get("defines", ()), compiler=w.get("compiler", "g++"), std=w.get("std", "c++11"),
                              opt=w.get("opt", "-O1"), sanitize=w.get("sanitize", True), name=w["name"]))
+    jobs.append(dict(source="cq_run.cpp", name="cq_run"))
     for fn in SETUP_HOOKS:
         jobs += fn()
     build_many(jobs)
@@ -90,7 +95,7 @@ def replay(path):
     raise MachineryError("no replayer for engine %s" % r.get("engine"))
 
 
-REPLAYERS = {}
+REPLAYERS = {"conc": concengine.replay_conc}
 
 
 def baseline_off():
